@@ -153,6 +153,9 @@ def gen_history(rng, kind, H, n_ops):
         elif r < 0.42:
             pi += 1
             ops.append(["pyprint", "y%d" % pi, rng.choice(["stdout", "stderr"])])
+            if rng.random() < 0.2:
+                # one write of several lines with blank lines among them and at its end
+                ops[-1].append(rng.choice(["a\n\nb", "a\n\n", "a\n\n\nb", "\na"]))
         elif r < 0.44:
             pi += 1
             ops.append(["pywrite", "w%d" % pi, rng.choice(["stdout", "stderr"])])
@@ -371,8 +374,14 @@ class Session:
         elif k == "pyprint":
             stream = sys.stdout if op[2] == "stdout" else sys.stderr
             if self.live_on() and self._redirected(op[2]):
-                stream.write(op[1] + "\n")
-                self.printed.append(self.pending.pop(op[2], "") + op[1])
+                if len(op) > 3:
+                    parts = [op[1] + x if x else "" for x in op[3].split("\n")]
+                    stream.write("\n".join(parts) + "\n")
+                    parts[0] = self.pending.pop(op[2], "") + parts[0]
+                    self.printed += parts
+                else:
+                    stream.write(op[1] + "\n")
+                    self.printed.append(self.pending.pop(op[2], "") + op[1])
                 self._drew()
             # (when no live display is running, stdout is the real one: nothing to do)
         elif k == "refresh":
